@@ -1082,7 +1082,19 @@ fn try_read(fd: RawFd, buf: &mut [u8]) -> nix::Result<Option<usize>> {
     }
     // The socket is readable - but some other process might get there first.
     // We have to set an alarm() in case our read() gets stuck.
-    let oldh = unsafe { signal::signal(Signal::SIGALRM, SigHandler::Handler(timeout_handler)) }?;
+    // The handler must be installed WITHOUT SA_RESTART (signal() sets it): the
+    // whole point of the timer is that a read() which lost the race for the
+    // byte to another process is interrupted (EINTR) instead of blocking forever.
+    let oldh = unsafe {
+        signal::sigaction(
+            Signal::SIGALRM,
+            &signal::SigAction::new(
+                SigHandler::Handler(timeout_handler),
+                signal::SaFlags::empty(),
+                signal::SigSet::empty(),
+            ),
+        )
+    }?;
     const INTERVAL_VALUE: IntervalTimerValue = IntervalTimerValue {
         interval: Duration::from_millis(10),
         value: Duration::from_millis(10),
@@ -1094,7 +1106,7 @@ fn try_read(fd: RawFd, buf: &mut [u8]) -> nix::Result<Option<usize>> {
         Err(e) => Err(e),
     };
     helpers::set_interval_timer(IntervalTimer::Real, &IntervalTimerValue::default())?;
-    unsafe { signal::signal(Signal::SIGALRM, oldh) }?;
+    unsafe { signal::sigaction(Signal::SIGALRM, &oldh) }?;
     result
 }
 
